@@ -154,43 +154,45 @@ theorem cCall_len (cx : Cx) (fa : FAddr) (Γ : Gam) (pc o : Nat) (g : String) (a
     (cCall cx fa Γ pc o g args).length = lenCall cx.checked args := by
   simp [cCall, lenCall, cArgs_len]; omega
 
-theorem cS_len (cx : Cx) (fa : FAddr) (s : S) : ∀ (Γ : Gam) (pc o : Nat),
-    (cS cx fa Γ pc o s).length = lenS cx.checked s := by
+theorem cS_len (cx : Cx) (fa : FAddr) (s : S) : ∀ (lp : Nat × Nat) (Γ : Gam) (pc o : Nat),
+    (cS cx fa lp Γ pc o s).length = lenS cx.checked s := by
   induction s with
   | nil => intros; rfl
   | ret => intros; rfl
-  | decl x e k ih => intro Γ pc o; simp [cS, lenS, pushE_len, ih]
+  | decl x e k ih => intro lp Γ pc o; simp [cS, lenS, pushE_len, ih]
   | assign x e k ih =>
-    intro Γ pc o
+    intro lp Γ pc o
     have := gV_len cx Γ pc o cx.r1 e
     rcases hg : gV cx Γ pc o cx.r1 e with ⟨c, v⟩
     rw [hg] at this
     simp [cS, hg, lenS, ih] at this ⊢; omega
-  | write e k ih => intro Γ pc o; simp [cS, lenS, cWrite_len, ih]
+  | write e k ih => intro lp Γ pc o; simp [cS, lenS, cWrite_len, ih]
   | writeln e k ih =>
-    intro Γ pc o
+    intro lp Γ pc o
     cases e <;> simp [cS, lenS, cWrite_len, ih] <;> omega
-  | putc c k ih => intro Γ pc o; simp [cS, lenS, ih]; omega
-  | block b k ihb ihk => intro Γ pc o; simp [cS, lenS, ihb, ihk]
+  | putc c k ih => intro lp Γ pc o; simp [cS, lenS, ih]; omega
+  | block b k ihb ihk => intro lp Γ pc o; simp [cS, lenS, ihb, ihk]
   | ifb c t e k iht ihe ihk =>
-    intro Γ pc o
+    intro lp Γ pc o
     simp [cS, lenS, cB_len, iht, ihe, ihk]; omega
   | loop c body cont k ihb ihc ihk =>
-    intro Γ pc o
+    intro lp Γ pc o
     simp [cS, lenS, cB_len, ihb, ihc, ihk]; omega
-  | defeat k ih => intro Γ pc o; simp [cS, lenS, ih]; omega
-  | defeatIf c k ih => intro Γ pc o; simp [cS, lenS, cD_len, ih]
+  | defeat k ih => intro lp Γ pc o; simp [cS, lenS, ih]; omega
+  | defeatIf c k ih => intro lp Γ pc o; simp [cS, lenS, cD_len, ih]
   | tryUndo body handler k ihb ihh ihk =>
-    intro Γ pc o
+    intro lp Γ pc o
     simp [cS, lenS, ihb, ihh, ihk]; omega
   | retE e =>
-    intro Γ pc o
+    intro lp Γ pc o
     have := gV_len cx Γ pc o cx.r0 e
     rcases hg : gV cx Γ pc o cx.r0 e with ⟨c, v⟩
     rw [hg] at this
     simp [cS, hg, lenS] at this ⊢; omega
-  | callS g args k ih => intro Γ pc o; simp [cS, lenS, cCall_len, ih]
-  | declCall x g args k ih => intro Γ pc o; simp [cS, lenS, cCall_len, ih]
-  | assignCall x g args k ih => intro Γ pc o; simp [cS, lenS, cCall_len, ih]; omega
+  | callS g args k ih => intro lp Γ pc o; simp [cS, lenS, cCall_len, ih]
+  | declCall x g args k ih => intro lp Γ pc o; simp [cS, lenS, cCall_len, ih]
+  | assignCall x g args k ih => intro lp Γ pc o; simp [cS, lenS, cCall_len, ih]; omega
+  | brk => intros; rfl
+  | cnt => intros; rfl
 
 end HidVerif.Core
